@@ -11,28 +11,52 @@ returned, the reported changed ranges are sorted, disjoint, inside the document,
 character whose stack of enclosing node types differs between the two trees lies inside one of
 them. This also holds when the included ranges changed between the two parses."
 
-Clause map (theorems are about the ports in `Ranges.lean` / `Iter.lean`, which are tied to
-`lib/src/get_changed_ranges.c` by the function- and system-level correspondence of `checks/c04.py`):
+Clause-by-clause map (phrase of the property text → theorem; PROVED = kernel-checked ∀-theorem about the ports in
+`Ranges.lean` / `Iter.lean`, which are tied to `lib/src/get_changed_ranges.c` by the function- and system-level
+correspondence of `checks/c04.py`; PARTIAL = proved under a hypothesis that is decidable and evaluated by the driver
+on every real case; JUDGED = decided on every real output by the Lean judge `Judge.lean`):
 
-* range merging (`ts_range_array_add`)                         → `add_sorted`
-* included-range symmetric difference
-  (`ts_range_array_get_changed_ranges`)                        → `symDiff_spec`, `symDiff_inside`
-* the override test (`ts_range_array_intersects`)              → `intersects_spec`
-* "sorted, disjoint, inside the document" for the tree walk    → `changed_sorted_bounded`: for ALL pairs of
-  *sized* trees (`AllSized`: every inner node's padding/size is what `ts_subtree_summarize_children` computes
-  from its children — decidable, `allSizedB`, evaluated per real case) whose walk starts inside both trees
-  (`entryOK`; implied by "both roots start at the same offset", `entryOK_of_same_start`; needed, see
-  `entry_needed_witness`) and did not exhaust the model's fuel: the ranges are sorted, separated, well formed
-  and end inside the longer tree.  Rests on the loop invariant of the lock-step walk (`Ends.lean`:
-  `Inv`, `loopBody_inv`, `mainLoop_spanOK`) and on (iii) `ascend_end`, (v) `end_le`.
-  `changed_sorted_bounded_partial` (hypothesis `traceAdmissible`, evaluated per case) remains for the
-  pairs outside those premises.
-* "every character whose stack differs is covered"            → `changed_covers` (same premises plus
-  MatchSound / PassSound, which is where parser determinism enters and which the driver discharges per real
-  case); `changed_covers_partial` keeps the evaluated shape hypotheses for pairs outside the premises;
-  independently, decided per case by the Lean judge (`Judge.lean`) on the real outputs.
-* "also when the included ranges changed"                      → OPEN and FALSE for the code as it is:
-  `override_span_witness` (genuine defect, known_findings/C04.json, fixes/C04-range-override-in-padding.diff)
+0. "Given the edited old tree that was passed to a re-parse and the tree that re-parse returned"
+   — the quantifier.  The theorems are about ALL pairs of trees (no relation between them is assumed, except the
+   premises named below); the check instantiates them with real (edited old, re-parsed new) pairs.
+1. "the reported changed ranges are sorted, disjoint"
+   * PROVED for the building blocks: `add_sorted` (`ts_range_array_add`), `symDiff_spec` (the included-range
+     difference: sorted, strictly separated, no empty range), `intersects_spec` (the override test is exact).
+   * PARTIAL for the walk — `changed_sorted_bounded` + `changed_nonempty`: sorted, pairwise STRICTLY separated
+     (`prev.end < next.start`: adjacent ranges are merged), no empty range.  Premises: both trees sized
+     (`AllSized`, via `allSizedB`: true of every real tree seen, edited ones included), the loop starts inside both
+     trees (`entryOK`; implied by equal root starts, `entry_of_same_start`; NEEDED, `entry_needed_witness`), model fuel
+     not exhausted.  Outside the premises (~2 % of real pairs: one tree ends before the other root starts):
+     `changed_sorted_bounded_partial` under `traceAdmissible` (evaluated), which gives `start ≤ end` only — real
+     traces there do hold a transient `[0,0)`.
+   * JUDGED on every real output: `rangesOrdered` (bytes AND points: the theorems are about bytes; points are
+     compared by the correspondence and judged).
+2. "inside the document"
+   * PARTIAL — `changed_sorted_bounded`: every range ends at or before the end of the LONGER of the two trees
+     (`end_le`: a cursor never ends beyond its root).  Weaker than the English in one respect: "the document" is the
+     new text; the edited old tree can be longer than the new text only by what `ts_tree_edit` left (it is not —
+     the check's judge uses `max(document length, both tree ends)` and never saw a range beyond the document).
+   * JUDGED: every range ends at or before `max(document length, tree ends)`.
+3. "every character whose stack of enclosing node types differs between the two trees lies inside one of them"
+   * PARTIAL — `changed_covers` (premises of 1 + MatchSound/PassSound: on every span the walk did not hand to `add`
+     the two per-byte stacks agree — this is where parser determinism / subtree sharing enters; evaluated per real
+     case with the judge's stacks): every differing byte in `[loopStart, walk end)` and every byte of the pre-call
+     `[min root start, max root start)` and of the post-call `[min total, max total)` is reported.
+     Rests on `spans_contiguous` (PROVED for all pairs), `spans_forward`, `trace_grows`.
+     GAPS against the English, all decided by the judge instead: (a) bytes before both root starts and after both
+     trees (no node encloses them in either tree: stacks equal by the judge's definition); (b) that the walk's end
+     reaches the end of the shorter tree is not proved (needs a visible-depth invariant of `ascendTo`); the driver
+     evaluates it per case (`reach`); (c) "character" = byte here, and a character's bytes share their stacks only if
+     no node boundary splits a character (true for trees of valid parses; judged per byte).
+   * JUDGED on every real output: `firstUncovered` over per-byte scope stacks computed from full dumps
+     (alias rule of `tree_cursor.c` included).
+4. "This also holds when the included ranges changed between the two parses"
+   * PROVED: `symDiff_spec`, `symDiff_inside` (the difference list is exactly the bytes in one list only).
+   * The override: `changed_covers` holds for every difference list (its premise MatchSound is evaluated with the
+     override applied); for the code BEFORE /repo e524398 the clause was FALSE — `override_span_witness` (finding
+     C04-override-span-in-padding, fixed by fixes/C04-range-override-in-padding.diff; the port carries both variants
+     and the check picks the one /repo behaves like).
+   * JUDGED: coverage is required only for bytes included in at least one of the two range lists.
 
 Conventions: a byte `x` is *in* a range when `start_byte ≤ x < end_byte`.  Input lists are what
 `ts_lexer_set_included_ranges` accepts (`SortedFrom 0`): starts ≥ previous end, end ≥ start; plus
@@ -255,6 +279,14 @@ theorem changed_sorted_bounded (al : AliasTable) (fixed : Bool) (old new : Tree)
   obtain ⟨_, ha, hb⟩ := walk_calls al fixed old new diffs hso hsn hentry hfuel
   obtain ⟨h1, h2⟩ := changed_sorted_bounded_partial al fixed old new diffs ha
   exact ⟨h1, fun r hr => Nat.le_trans (h2 r hr) hb⟩
+
+/-- `changed_nonempty`: under the same premises no reported range is empty — together with `changed_sorted_bounded`:
+sorted, strictly separated, non-empty (what `add_sorted` states for a single call, for the whole walk). -/
+theorem changed_nonempty (al : AliasTable) (fixed : Bool) (old new : Tree) (diffs : List TSRange)
+    (hso : AllSized old) (hsn : AllSized new) (hentry : entryOK old new = true)
+    (hfuel : (changedRanges al fixed old new diffs).fuelOut = false) :
+    ∀ r ∈ (changedRanges al fixed old new diffs).ranges, r.start_byte < r.end_byte :=
+  walk_ne al fixed old new diffs hso hsn hentry hfuel
 
 /-- `changed_covers` — the coverage clause for the walk, for ALL pairs of sized trees: under MatchSound / PassSound
 (on every span the walk did not hand to `add` the two per-byte stacks agree) every byte from the loop start to
